@@ -33,6 +33,7 @@ from more_itertools import before_and_after
 
 import gtirb_rewriting._auxdata_offsetmap as _auxdata_offsetmap
 
+from .. import _verif
 from .._auxdata_offsetmap import OFFSETMAP_AUX_DATA_TABLES
 from ..utils import (
     _block_fallthrough_targets,
@@ -169,5 +170,14 @@ def split_block(
     cache.block_ordering[block.section].insert_blocks_after(
         block, (new_block,)
     )
+
+    if _verif.ENABLED:
+        _verif.emit(
+            "split_block",
+            cache=cache,
+            block=block,
+            new_block=new_block,
+            offset=offset,
+        )
 
     return block, new_block, added_fallthrough
